@@ -414,6 +414,7 @@ func run(b *harness.B) {
 	for ei := range reg {
 		e := &reg[ei]
 		okAll := true
+		var prevEnc []byte
 		for i := 0; i < nRound; i++ {
 			opts := &valgen.Opts{SubSecond: true, Budget: []int{12, 40, 120, 300}[c.rng.IntN(4)]}
 			if i == 0 {
@@ -431,6 +432,27 @@ func run(b *harness.B) {
 			if !ok {
 				continue
 			}
+			// 1b. a caller that reuses one variable for successive messages: decoding an encoding into a value
+			// that already holds another one yields the encoded value, not a mixture
+			if e.DecodeInto != nil && prevEnc != nil {
+				dst := e.New()
+				var e1, e2 error
+				var re []byte
+				if p := safely(func() {
+					e1 = e.DecodeInto(dst, prevEnc)
+					e2 = e.DecodeInto(dst, enc)
+					re = e.Encode(dst)
+				}); p != "" {
+					b.Violate("C11/panic/decode-into-used-value/"+e.Name, "decoding into a value that holds an earlier message panicked: "+p, witness{Entry: e.Name, Encoding: hexCap(enc, 4096), Other: hexCap(prevEnc, 4096)})
+				} else if e1 == nil && e2 == nil {
+					b.Eval(1)
+					b.Count("decodes_into_a_used_value", 1)
+					if !bytes.Equal(re, enc) {
+						b.Violate("C11/roundtrip/decode-into-used-value/"+e.Name, fmt.Sprintf("decoding encode(B) into a variable that held A gives a value that re-encodes differently from B (at byte %d; %d vs %d bytes): fields of A survive", firstDiff(enc, re), len(re), len(enc)), witness{Entry: e.Name, Encoding: hexCap(enc, 4096), Other: hexCap(prevEnc, 4096)})
+					}
+				}
+			}
+			prevEnc = enc
 			if i < nInfl || (i < 2*nInfl && len(enc) < 400) {
 				c.influence(e, v, enc, maxPaths)
 			}
